@@ -104,6 +104,7 @@ func extractFacts(repo string) (string, error) {
 	localsArg := "?"
 	stores := map[string]bool{}
 	passed := map[string]bool{}
+	nodeWrites := map[string]bool{}
 	scan := func(dir string) error {
 		ps, err := parser.ParseDir(fset, filepath.Join(repo, dir), func(fi os.FileInfo) bool {
 			return !strings.HasSuffix(fi.Name(), "_test.go")
@@ -126,6 +127,45 @@ func extractFacts(repo string) (string, error) {
 						ast.Inspect(fd.Body, func(n ast.Node) bool {
 							if c, ok := n.(*ast.CallExpr); ok && strings.HasSuffix(src(c.Fun, fset), "RuleContent.Execute") && len(c.Args) == 2 {
 								localsArg = src(c.Args[1], fset)
+							}
+							return true
+						})
+					}
+					// writes of a method other than the parser's Accept* setters to its own node (the rule tree is shared by
+					// every execution, sequential or concurrent, of every engine instance)
+					if dir == "internal/base" && fd.Recv != nil && len(fd.Recv.List) == 1 && len(fd.Recv.List[0].Names) == 1 &&
+						!strings.HasPrefix(fd.Name.Name, "Accept") {
+						rn := fd.Recv.List[0].Names[0].Name
+						rooted := func(e ast.Expr) bool {
+							for {
+								switch x := e.(type) {
+								case *ast.SelectorExpr:
+									e = x.X
+								case *ast.IndexExpr:
+									e = x.X
+								case *ast.StarExpr:
+									e = x.X
+								case *ast.ParenExpr:
+									e = x.X
+								case *ast.Ident:
+									return x.Name == rn
+								default:
+									return false
+								}
+							}
+						}
+						ast.Inspect(fd.Body, func(n ast.Node) bool {
+							switch x := n.(type) {
+							case *ast.AssignStmt:
+								for _, l := range x.Lhs {
+									if _, plain := l.(*ast.Ident); !plain && rooted(l) {
+										nodeWrites[fname+": "+src(l, fset)+" "+x.Tok.String()] = true
+									}
+								}
+							case *ast.IncDecStmt:
+								if _, plain := x.X.(*ast.Ident); !plain && rooted(x.X) {
+									nodeWrites[fname+": "+src(x.X, fset)+x.Tok.String()] = true
+								}
 							}
 							return true
 						})
@@ -203,6 +243,13 @@ func extractFacts(repo string) (string, error) {
 	}
 	b.WriteString("]\n\n/-- functions (last name component) the rule-local table is passed to -/\ndef varsPassedTo : List String := [")
 	for i, s := range keys(passed) {
+		if i > 0 {
+			b.WriteString(", ")
+		}
+		b.WriteString(leanStr(s))
+	}
+	b.WriteString("]\n\n/-- assignments of a method of internal/base, other than the parse-time Accept* setters, to a field of its own node -/\ndef nodeWrites : List String := [")
+	for i, s := range keys(nodeWrites) {
 		if i > 0 {
 			b.WriteString(", ")
 		}
